@@ -122,6 +122,14 @@ def gen_case(rng, tier, avoid):
             if bop:
                 writes.append(bop)
         writes.append(w2)
+    if len(writes) == 1 and data is not None and data.get('kind') in ('struct', 'dict') and rng.random() < 0.3:
+        # the same data OBJECT written a second time (another chunk size): what the first write did to it must not show
+        w1['data'] = dict(data, share='d%08x' % rng.randrange(1 << 32))
+        w2 = dict(w1, path='out2.dlis')
+        w2['input_chunk_size'] = gen.pick(rng, [1, 2, 3, None])
+        if w2['input_chunk_size'] is None:
+            del w2['input_chunk_size']
+        writes.append(w2)
     return {'scenario': {'env': {'tz': 'UTC'}, 'history': ops}, 'params': {'writes': writes, 'source': kind}}
 
 
